@@ -209,12 +209,12 @@ type Schema struct {
 	// keywords goag accepts and ignores (outside every oracle)
 	// goag's vendor extension: the Go time layout (a Go expression such as time.RFC1123Z)
 	// of a date-time string
-	TimeFormat string `json:"x-goag-go-time-format,omitempty"`
-	Enum      []any    `json:"enum,omitempty"`
-	ReadOnly  bool     `json:"readOnly,omitempty"`
-	WriteOnly bool     `json:"writeOnly,omitempty"`
-	Minimum   *float64 `json:"minimum,omitempty"`
-	Pattern   string   `json:"pattern,omitempty"`
+	TimeFormat string   `json:"x-goag-go-time-format,omitempty"`
+	Enum       []any    `json:"enum,omitempty"`
+	ReadOnly   bool     `json:"readOnly,omitempty"`
+	WriteOnly  bool     `json:"writeOnly,omitempty"`
+	Minimum    *float64 `json:"minimum,omitempty"`
+	Pattern    string   `json:"pattern,omitempty"`
 }
 
 type Discriminator struct {
